@@ -236,8 +236,6 @@ def random_contracts(reg, cls=IN):
             'exact': '%s ==> pow2(%s - 1) <= ival(result)' % (EXACT, BITS),
             'type': 'type(result) is cls'},
         lemmas={'exit': {'sbits': '1 <= %s and %s <= 8' % (SB, SB),
-                         'top': 'ival(result) == be(bytes([%s]) + %s)' % (top, rest),
-                         'cat': 'be_cat(bytes([%s]), %s)' % (top, rest),
                          'val': 'ival(result) == %s * pow2(8 * (%s - 1)) + be(%s)' % (top, NB, rest),
                          'lt': 'be_lt(%s)' % rest,
                          'radix': 'lemma("integer.radix_lt", %s, be(%s), pow2(8 * (%s - 1)), pow2(%s))' % (top, rest, NB, SB),
@@ -245,7 +243,7 @@ def random_contracts(reg, cls=IN):
                          'bits': 'pow2_add(%s, 8 * (%s - 1))' % (SB, NB),
                          'bits_lo': 'pow2_add(%s - 1, 8 * (%s - 1))' % (SB, NB)}},
         modifies=['kwargs', TP + '.g_pos'], result='obj:' + cls,
-        options={'enum_shift': 8, 'pow2_consts': True, 'int_bytes': True})))
+        options={'enum_shift': 8, 'pow2_consts': True, 'int_bytes': True, 'be_unfold': True})))
     return out
 
 
